@@ -4,7 +4,7 @@ EXTENDS Vers, VersVariants, Json, SequencesExt
 Emit == (phase = "done" /\ probe = 0) =>
           PrintT(<<"VEC", ToJson([cs |-> Cs(ops), texts |-> [s \in Schemes |-> VersText(s, Cs(ops))]])>>)
 \* C16: the same ranges with all their meaning-preserving spellings (emitted instead of Emit by the C16 run)
-CTexts(s, cs) == [i \in 1..Len(cs) |-> cs[i].op \o Chain(s)[cs[i].pos + 1]]
+CTexts(s, cs) == [i \in 1..Len(cs) |-> cs[i].op \o TheChain(s)[cs[i].pos + 1]]
 EmitVariants == (phase = "done" /\ probe = 0) =>
           \A s \in Schemes :
             PrintT(<<"VEC", ToJson([scheme |-> s, cs |-> Cs(ops), base |-> VersText(s, Cs(ops)),
